@@ -465,47 +465,70 @@ def g5ii_duplicate_archetype(prog):
     if f is None:
         r.viol('G5ii', 'missing', '-', 'ArchetypesVisitor::visit_seq not found')
         return r
-    body = f.body
-    ins = [(b, t) for b, t in body.calls(lambda c: c['name'] == 'insert' and c['path'].startswith('archetypes::Archetypes'))]
-    r.inst('ArchetypesVisitor::visit_seq: insert x%d' % len(ins))
-    if len(ins) != 1:
-        r.viol('G5ii', 'insert-count', f.loc(), 'expected exactly one insertion per deserialised archetype')
+    E = pathsem.analyse(prog, f, max_paths=20000)
+    rets = [p for p in E.paths if p.ended == 'return']
+    rep = set()
+
+    def once(k, ln, msg):
+        if k not in rep:
+            rep.add(k)
+            r.viol('G5ii', k, f.loc(ln), msg)
+    if E.truncated or not rets:
+        once('insert-count', None, 'ArchetypesVisitor::visit_seq not analysable')
         return r
-    b, t = ins[0]
-    d = t['dest']['l']
-    ok = False
-    for sb in range(body.n):
-        st = body.term(sb)
-        if st['k'] == 'switch':
-            dl = op_local(st['discr'])
-            dd = single_def(body, dl) if dl is not None else None
-            if dd and dd[0] == 'assign' and dd[3]['rv']['k'] == 'discr' and dd[3]['rv']['place']['l'] in derived(body, {d}):
-                # Err = variant 1
-                et = st['targets'][st['values'].index(1)] if 1 in st['values'] else st['otherwise']
-                reach = body.reachable(et, avoid=[b])
-                errs = set(result_blocks(body, 'Err'))
-                if errs & reach and not (set(result_blocks(body, 'Ok')) & reach):
-                    ok = True
-    # the world's entity count is accumulated from the length of every archetype read, once per archetype
-    adds = []
-    for b2, i2, s2 in body.stmts():
-        if s2['k'] == 'assign' and s2['place']['p'] and s2['rv']['k'] == 'binop' and s2['rv']['op'].startswith('Add'):
-            nm = receiver_name(prog, body, {'copy': s2['place']}) or ''
-            if nm.endswith('.len') or nm.endswith('len'):
-                adds.append((b2, i2, s2))
-    r.inst('ArchetypesVisitor::visit_seq: %d len accumulation(s)' % len(adds))
-    if len(adds) != 1:
-        r.viol('G5ii', 'len-accumulation', f.loc(), 'the deserialised world\'s entity count must be accumulated exactly once per archetype read (found %d additions)' % len(adds))
-    else:
-        ab, ai, as_ = adds[0]
-        l = op_local(as_['rv']['b'])
-        d = resolve_def(body, l) if l is not None else None
-        if not (d and d[0] == 'call' and d[2]['f']['name'] == 'len' and 'Archetype' in d[2]['f']['path']):
-            r.viol('G5ii', 'len-addend', f.loc(as_['ln']), 'the amount added to the world\'s entity count is not the length of the archetype just read')
-        if ab not in body.reachable_after(ab) or not (body.dominates(ab, b) or body.dominates(b, ab)):
-            r.viol('G5ii', 'len-not-per-archetype', f.loc(as_['ln']), 'the entity count is not updated in step with the insertion of each archetype')
-    if not ok:
-        r.viol('G5ii', 'duplicate-accepted', f.loc(t['ln']), 'a duplicate archetype identifier in the input (Archetypes::insert returned Err) does not fail deserialisation: two tables for one component set')
+    S = pathsem.strip_refs
+    n_ins = n_add = 0
+    saw_dup_rejected = False
+    for p in E.paths:
+        if p.ended not in ('return', 'cutoff'):
+            continue
+        reads = p.calls(lambda e: e['name'] in ('next_element', 'next_element_seed'))
+        got = []           # archetypes actually read on this path (Ok(Some(x)))
+        for e in reads:
+            if p.lookup(('discr', e['ret'])) == 0:
+                pl = ('f', ('down', e['ret'], 'Ok', 0), 0, 'core::result::Result')
+                if p.lookup(('discr', pl)) == 1:
+                    got.append(('f', ('down', pl, 'Some', 1), 0, 'core::option::Option'))
+        ins = p.calls(lambda e: e['name'] == 'insert' and e['path'].startswith('archetypes::Archetypes'))
+        n_ins += len(ins)
+        is_err = isinstance(p.ret, tuple) and p.ret[0] == 'agg' and p.ret[2] == 'Err'
+        is_ok = isinstance(p.ret, tuple) and p.ret[0] == 'agg' and p.ret[2] == 'Ok'
+        for e in ins:
+            if p.lookup(('discr', e['ret'])) == 1:      # Err(archetype): duplicate identifier
+                if p.ended == 'return':
+                    if is_err:
+                        saw_dup_rejected = True
+                    else:
+                        once('duplicate-accepted', e['ln'], 'a duplicate archetype identifier in the input (Archetypes::insert returned Err) does not fail deserialisation: two tables for one component set')
+            elif p.lookup(('discr', e['ret'])) is None and is_ok:
+                once('duplicate-accepted', e['ln'], 'the result of Archetypes::insert is not inspected on a path that succeeds')
+        if p.ended != 'return':
+            continue
+        # every archetype read is inserted (in order) ...
+        inserted = [S(e['vals'][1]) for e in ins]
+        want = got if not is_err else got[:len(inserted)]
+        if is_ok and inserted != got:
+            once('insert-count', None, 'expected exactly one insertion per deserialised archetype (read %d, inserted %d)' % (len(got), len(inserted)))
+        # ... and the entity count grows by the length of each archetype read, once
+        lens = [e for e in p.events if e['k'] == 'store' and not pathsem.is_field_of(e['loc'], 'archetypes::Archetypes', 0) and pathsem.mentions(e['value'], lambda t: t[0] == 'call' and t[1].endswith('::len'))]
+        if is_ok and got:
+            if not lens:
+                once('len-accumulation', None, 'the deserialised world\'s entity count is not accumulated from the archetypes read')
+            else:
+                n_add += 1
+                st = lens[-1]
+                d = pathsem.lin(st['value']) - pathsem.lin(lens[0]['loc'])
+                terms = dict(d.terms)
+                okl = d.const == 0 and len(terms) == len(got) and all(c == 1 for c in terms.values()) and \
+                    all(isinstance(t, tuple) and t[0] == 'call' and t[1].endswith('::len') and 'Archetype' in t[1] and S(t[2][0]) in got for t in terms)
+                if not okl:
+                    once('len-addend', st['ln'], 'the amount added to the world\'s entity count is not the length of each archetype read, once (got %s for %d archetypes)' % (d, len(got)))
+    r.inst('ArchetypesVisitor::visit_seq: insert x%d over %d paths' % (n_ins, len(E.paths)))
+    r.inst('ArchetypesVisitor::visit_seq: %d len accumulation path(s)' % n_add)
+    if not n_ins:
+        once('insert-count', None, 'deserialised archetypes are never inserted')
+    elif not saw_dup_rejected:
+        once('duplicate-accepted', None, 'a duplicate archetype identifier in the input (Archetypes::insert returned Err) does not fail deserialisation: two tables for one component set')
     return r
 
 
